@@ -87,6 +87,7 @@ def make(idx, seed):
         "ruse": rnd.random() < 0.25, "rparam": rnd.random() < 0.4,
         "rsave": rnd.random() < 0.2, "fvar": rnd.randint(0, 1),
         "import_pub": rnd.random() < 0.3,
+        "only_order": rnd.randint(0, 2), "kindvar": rnd.random() < 0.15,
     }
     nb = rnd.randint(1, 3)
     body_ids = [rnd.randrange(len(BODIES)) for _ in range(nb)]
@@ -109,7 +110,8 @@ def make(idx, seed):
         name = f"m{idx}_mod"
         src = ["module " + name]
         if feats["use_only"]:
-            src.append("  use a_mod, only : fa, fb=>fc")
+            src.append("  use a_mod, only : " + ["fa, fb=>fc", "fb=>fc, fa",
+                                                    "fz=>fa, fb=>fc, fa=>fq"][feats["only_order"]])
         if feats["use_wild"]:
             src.append("  use b_mod")
         src.append("  implicit none")
@@ -128,6 +130,12 @@ def make(idx, seed):
             mv.append("logical, private :: flag")
         if feats["charparam"]:
             mv.insert(rnd.randint(0, len(mv)), "character(len = 3), parameter, public :: tag = 'ab'")
+        if feats["kindvar"]:
+            # a constant whose value inquires about a module variable (constants_mod)
+            mv += ["real :: r_val", "integer, parameter, public :: r_native = KIND(r_val)"]
+            if not feats["charparam"]:
+                mv.append("character(len = 3), parameter, public :: tag = 'ab'")
+            mv += ["integer :: i_val", "integer, parameter, public :: i_native = KIND(i_val)"]
         if feats["param_late"]:
             decls += mv + par
         else:
